@@ -40,8 +40,9 @@ def run(R):
             bad = [n for n in names if forbidden.search(n)]
             ok = (sj == ([acc] if acc else [])) and not casts and not bad
             if vn == "Array" and ok:
-                ch = [short(c.name) for x in P.children.get(f.key, []) for c in x.calls] + \
-                     [short(c.name) for x in P.children.get(f.key, []) for y in P.children.get(x.key, []) for c in y.calls]
+                # the elements are converted by the same function: in a closure (`map(|x| element.convert_from_json(x))`), in the arm
+                # itself, or in a helper loop that was inlined into it
+                ch = [short(c.name) for x in PR.closures_of(P, f) for c in x.calls] + names
                 ok = "sqlgrep::model::ValueType::convert_from_json" in ch
             if ok:
                 R.ok("C02.accessor", "convert_from_json|" + vn, "%s -> %s" % (vn, acc.split("::")[-1] if acc else "NULL"), f.loc(arms_[vn][0]))
@@ -108,44 +109,53 @@ def run(R):
                 R.violation("C02.convert", "extract|no-default", "an absent JSON path does not yield the declared DEFAULT", [gv[0].loc()])
             else:
                 R.ok("C02.convert", "extract|default", "DEFAULT only on the path-absent edge", def_in_none[0].loc())
-            # the CONVERT branch: in the Json arm itself or in a helper the Some edge hands the leaf to
+            # the CONVERT branch, read as path facts on the view (an if, a match, an early return or a mode enum computed from the
+            # option are all the same): as_str + ValueType::parse happen exactly where convert == true, convert_from_json where false
             CFJ = "sqlgrep::model::ValueType::convert_from_json"
-            found = []
-            for k in sorted(P.reachable([cpe])):
-                h = P.fns[k]
-                if h.kind == "Closure" or not h.spath.startswith("sqlgrep::data_model::"):
-                    continue
-                for (sw2, tt, ft) in PR.field_bool_switches(h, "convert"):
-                    if h.key == cpe.key and sw2 not in some_reg:
-                        continue
-                    if h.key != cpe.key and not any(c.bb in some_reg and h.key in P.callee_keys(cpe, c) for c in cpe.calls):
-                        continue
-                    found.append((h, sw2, tt, ft))
-            if len(found) != 1:
-                R.violation("C02.convert", "extract|convert-branch", "the JSON leaf is not converted under exactly one branch on options.convert "
-                                                                     "(found %d)" % len(found), [gv[0].loc()])
-            else:
-                h, sw2, tt, ft = found[0]
-                tr = set(b for b in h.reach if h.dominates(tt, b))
-                fa = set(b for b in h.reach if h.dominates(ft, b))
+            cfa = PR.facts(cpe)
 
-                def names_in(reg):
-                    out = [short(c.name) for c in h.calls if c.bb in reg]
-                    for c in h.calls:
-                        if c.bb in reg:
-                            for ck in (c.func.get("closure_args") or []):
-                                cf = P.fns.get(ck)
-                                if cf is not None:
-                                    out += [short(c2.name) for c2 in cf.calls]
-                    return out
-                tn, fn_ = names_in(tr), names_in(fa)
-                if SJ + "as_str" in tn and "sqlgrep::model::ValueType::parse" in tn and CFJ in fn_ and CFJ not in tn \
-                        and SJ + "as_str" not in fn_:
-                    R.ok("C02.convert", "extract|convert", "CONVERT: as_str -> parse; otherwise convert_from_json (in %s)" % h.spath.split("::")[-1],
-                         h.loc(sw2))
-                else:
-                    R.violation("C02.convert", "extract|convert-arms", "CONVERT arms: true -> %s, false -> %s (expected as_str + ValueType::parse / "
-                                                                       "convert_from_json)" % (sorted(set(tn))[:6], sorted(set(fn_))[:6]), [h.loc(sw2)])
+            def conv_fact(bb):
+                vals = set()
+                for w in (cfa.worlds_at(bb) or []):
+                    got = None
+                    for key_, val in w:
+                        a_ = cfa.atoms.get(key_, {})
+                        if a_.get("kind") == "place" and isinstance(val, bool):
+                            fe = [e for e in a_["place"]["p"] if isinstance(e, dict) and "f" in e]
+                            if fe and fe[-1].get("n") == "convert" and fe[-1].get("ty") == "bool":
+                                got = val
+                    vals.add(got)
+                return vals
+            sites = {"as_str": [], "parse": [], "cfj": []}
+            for c in cpe.calls:
+                sn = short(c.name)
+                if c.bb not in some_reg:
+                    continue
+                if sn == SJ + "as_str":
+                    sites["as_str"].append(c)
+                elif sn == "sqlgrep::model::ValueType::parse":
+                    sites["parse"].append(c)
+                elif sn == CFJ:
+                    sites["cfj"].append(c)
+                for ck in (c.func.get("closure_args") or []):
+                    cf = P.fns.get(ck)
+                    if cf is not None:
+                        for c2 in cf.calls:
+                            if short(c2.name) == "sqlgrep::model::ValueType::parse":
+                                sites["parse"].append(c)
+                            if short(c2.name) == CFJ:
+                                sites["cfj"].append(c)
+            ok_conv = bool(sites["as_str"]) and bool(sites["parse"]) and bool(sites["cfj"]) and cfa.ok and \
+                all(conv_fact(c.bb) == {True} for c in sites["as_str"] + sites["parse"]) and all(conv_fact(c.bb) == {False} for c in sites["cfj"])
+            if ok_conv:
+                R.ok("C02.convert", "extract|convert", "CONVERT: as_str -> parse exactly under convert == true; otherwise convert_from_json",
+                     sites["as_str"][0].loc())
+            else:
+                R.violation("C02.convert", "extract|convert-arms",
+                            "CONVERT is not applied as `convert ? leaf.as_str().parse() : convert_from_json(leaf)`: as_str under %s, parse under %s, "
+                            "convert_from_json under %s (values of options.convert on the paths reaching them)"
+                            % ([sorted(map(str, conv_fact(c.bb))) for c in sites["as_str"]], [sorted(map(str, conv_fact(c.bb))) for c in sites["parse"]],
+                               [sorted(map(str, conv_fact(c.bb))) for c in sites["cfj"]]), [gv[0].loc()])
     # ---- path walk
     gf = R.need_fn("sqlgrep::data_model::JsonAccess::get_value")
     sws = A.enum_switches(gf, "data_model::JsonAccess")
